@@ -4,12 +4,17 @@
     chunk sizes / index lists, consumed eagerly (copy at yield time) and lazily (`list(gen)`),
     and `RTDCWriter.write_ndarray`, against the Lean model (stack boundaries included);
 (B) `Export.hdf5` over sources (dict, dict with non-sliceable image, hdf5, hdf5 with a shorter
-    image feature, hierarchy children depth 1-2, tdms fixture in the thorough tier) x masks x
+    image feature, hdf5 whose non-scalar features come from a *mapped* file basin with an arbitrary
+    basin map, hierarchy children depth 1-2, tdms fixture in the thorough tier) x masks x
     feature subsets x options x chunk sizes: output re-opened with dclab and with raw h5py,
     compared with the property oracle evaluated directly (`out[f] == src[f][mask]`, event count,
     metadata, logs, tables) and, as tokens, with the Lean model;
 (C) `Export.tsv` parsed back (|parsed - x| <= 6e-11 |x|, NaN/inf textual), source sizes incl.
-    1024 and 2048 events with selections of arbitrary size.
+    1024 and 2048 events with selections of arbitrary size; scalar features from dclab's whole
+    list, their values from value classes (integer-valued, fractional, negative, nan/inf, wide
+    range) that do not depend on the feature's name.
+The measurement metadata of the sources is drawn from dclab's definition of the metadata sections
+(every key of every section in the fixed cases, random subsets otherwise).
 Hierarchy sources are histories: the child's features are accessed, the ancestors' filters are
 moved (same cardinality) and the hierarchy refreshed before the export; the truth is read from a
 freshly built hierarchy. HDF5 sources written with raw h5py trigger every defective-feature marker
@@ -51,7 +56,13 @@ RULE = ("Hierarchy children come with a history (feature access, 1-3 equal-cardi
         "k-th image access) or their process was killed there (all files of the directory captured at "
         "that moment, with or without flushing the open HDF5 files, and restored afterwards); 20 % of "
         "them without override (refusal expected, file byte-identical). features=None in 13 fixed and "
-        "6 % of the random cases.")
+        "6 % of the random cases. Mapped-basin sources (3/15 of the random kinds, 12 fixed cases): basin file "
+        "with nb >= n events, basin map increasing / decreasing / arbitrary order / with repeated events; "
+        "image, image_bg, mask, contour, non-scalar temporary feature and two scalars live in the basin. "
+        "Metadata: 60 % of the random sources and all fixed sources carry generated metadata (keys from "
+        "dfn.config_keys of every CFG_METADATA section, values from dfn.config_types). C: 0-4 additional "
+        "scalar features of dclab's list per case, value class per feature from "
+        "{payload, int, frac, neg, special (nan/inf), wide}.")
 TRUSTED_BASE = [
     "modelled, not verified: numpy fancy/boolean indexing, h5py dataset resize and slice "
     "assignment, HDF5 filters (zstd, fletcher32), np.savetxt number formatting, uuid4",
@@ -65,6 +76,8 @@ TRUSTED_BASE = [
 ASSUMPTIONS = ["containers without slicing support (tdms images, the harness' NoArray) are "
                "exported with filtered=True: the unfiltered route `store_feature(feat, ds[feat])` "
                "slices the container and raises for them (observation, not counted)",
+               "trace data are not served through mapped basins (BasinProxyFeature cannot wrap the "
+               "trace dictionary): traces of basin-backed sources are stored in the file itself",
                "no requested feature is empty or longer than len(ds); with skip_checks the "
                "selection must address existing rows (Lean: structure `Ok`)",
                "metadata keys autocompleted by RTDCWriter.rectify_metadata (roi size, samples per "
@@ -74,7 +87,11 @@ ASSUMPTIONS = ["containers without slicing support (tdms images, the harness' No
 NOT_PROVED = ["number formatting of np.savetxt (correspondence with tolerance 6e-11 relative; the tsv text "
               "theorems take fmt as a parameter that is injective up to precision by hypothesis)",
               "joining / splitting the cells of a tsv line at tabs (a data line is the list of its cells)",
-              "basin export (property C07)", "avi/fcs export",
+              "basin export (`basins=True`, property C07); mapped-basin SOURCES are exercised by the "
+              "correspondence only (the model sees their rows like any other source's: `src[f][i]` read "
+              "event by event)", "avi/fcs export",
+              "the metadata universe: that every key is carried over is proved for the model's opaque "
+              "key/value pairs (`export_carries_metadata`); which keys exist comes from dclab's definitions",
               "metadata comment lines of the tsv text (only: they are comments and precede the names line)",
               "what a crashed export leaves at the output path is arbitrary in the model (any directory "
               "content); which contents a real crash can produce is explored by fault injection only"]
@@ -141,6 +158,102 @@ def tok(s):
 
 def name_ok(s):
     return str(s).replace(" ", "_").replace(";", "_").replace("=", "_").replace(",", "_")
+
+
+def norm_val(v):
+    """configuration value as plain python data (the container type a value travels in -- list,
+    tuple, ndarray, numpy scalar -- is not part of the measurement metadata)"""
+    if isinstance(v, (list, tuple, np.ndarray)):
+        return tuple(norm_val(x) for x in v)
+    if isinstance(v, (bool, np.bool_)):
+        return bool(v)
+    if isinstance(v, (int, np.integer)):
+        return int(v)
+    if isinstance(v, (float, np.floating)):
+        return float(v)
+    if isinstance(v, bytes):
+        return v.decode("utf-8", "replace")
+    return v
+
+
+def make_meta(rng, full=False):
+    """measurement metadata drawn from dclab's own definition of the metadata sections
+    (`dfn.CFG_METADATA` / `dfn.config_keys` / `dfn.config_types`): for every section a subset of
+    the keys (all keys with `full`), values generated from the declared type and passed through
+    the declared conversion function.  Keys of gen.BASE_META keep their base value, keys rewritten
+    by the writer (RECTIFIED) and the tdms-only section are left out."""
+    common.import_dclab()
+    from dclab import definitions as dfn
+    out = {}
+    for sec in dfn.CFG_METADATA:
+        if sec == "fmt_tdms":
+            continue
+        try:
+            keys = list(dfn.config_keys[sec])
+        except Exception:
+            continue
+        if not full and rng.random() < 0.35:
+            continue
+        for k in keys:
+            if (sec, k) in RECTIFIED or k in gen.BASE_META.get(sec, {}):
+                continue
+            if not full and rng.random() < 0.5:
+                continue
+            try:
+                tp = dfn.config_types[sec][k]
+                tps = tp if isinstance(tp, tuple) else (tp,)
+                if bool in tps and float in tps:
+                    v = rng.choice([True, False, 0.5 + rng.randint(0, 8)])
+                elif bool in tps:
+                    v = rng.random() < 0.5
+                elif tuple in tps:
+                    v = [rng.randint(1, 40) / 8, rng.randint(1, 40) / 4]
+                elif any(t.__name__ == "Integral" for t in tps):
+                    v = rng.randint(1, 900)
+                elif any(t.__name__ == "Number" for t in tps):
+                    v = rng.randint(1, 8000) / 16
+                else:
+                    v = "".join(rng.choice("abcdefghijklmnop qrstuvwxyz0123456789") for _ in
+                                range(rng.randint(1, 12))).strip() or "x"
+                dfn.config_funcs[sec][k](tuple(v) if isinstance(v, list) else v)
+            except Exception:
+                continue            # a key whose declaration this generator does not understand
+            out.setdefault(sec, {})[k] = v
+    return out
+
+
+def apply_meta(m, meta):
+    """merge generated metadata into a nested dict / a dclab configuration"""
+    for sec, kv in (meta or {}).items():
+        for k, v in kv.items():
+            try:
+                if sec not in m:
+                    m[sec] = {}
+                m[sec][k] = tuple(v) if isinstance(v, list) else v
+            except Exception:
+                pass
+
+
+#: value classes of scalar features (the values a feature holds do not depend on its name: an
+#: in-memory dataset or a file written by other software may hold any float in any scalar feature)
+VCLASSES = ("payload", "int", "frac", "neg", "special", "wide")
+
+
+def pl_class(feat, t, vc):
+    """payload of token t for a scalar feature whose values are of class `vc` (pure)"""
+    if vc == "payload":
+        return np.float64(pl(feat, t))
+    h = (gen.hash_str(feat) * 1000003 + t * 7919) % 2**31
+    frac = (h % 50000) + ((h // 7) % 1000 + 1) / 1001.0          # never integer-valued
+    if vc == "int":
+        return np.float64(h % 50000)
+    if vc == "frac":
+        return np.float64(frac)
+    if vc == "neg":
+        return np.float64(-((h % 977) + 0.75))
+    if vc == "special":
+        return np.float64([frac, np.nan, np.inf, -np.inf, float(h % 13)][t % 5])
+    return np.float64((h % 9973 + 1) / 7.0 * 10.0 ** ((h % 41) - 20))        # wide range
 
 
 class ChunkPatch:
@@ -304,18 +417,25 @@ def write_logs_raw(path, logs):
             grp.create_dataset(name, data=np.array(bl, dtype=f"S{width}"), shape=(len(bl),))
 
 
-def make_file(path, toks, feats, short=None, logs=None, tables=None, user=None):
-    """hdf5 source; `short` = {feat: number of missing rows at the end}"""
+def make_file(path, toks, feats, short=None, logs=None, tables=None, user=None, meta=None,
+              vclass=None):
+    """hdf5 source; `short` = {feat: number of missing rows at the end}; `meta` = additional
+    metadata; `vclass` = {scalar feature: value class}, stored as float64 with plain h5py (as files
+    of other / older software do), because the writer would cast some features to integers"""
     dclab = common.import_dclab()
     short = short or {}
     m = copy.deepcopy(gen.BASE_META)
     m["experiment"]["run identifier"] = "rid-c02"
     if user:
         m["user"] = dict(user)
+    apply_meta(m, meta)
+    vclass = vclass or {}
     with dclab.RTDCWriter(path, mode="reset") as hw:
         hw.store_metadata(m)
         for f in sorted(feats):        # the first stored feature defines len(ds): a scalar
             tk = toks[:len(toks) - short.get(f, 0)]
+            if f in vclass:
+                continue
             if f == "trace":
                 hw.store_feature("trace", {n: np.array([pl("trace/" + n, t) for t in tk])
                                            for n in TRACES})
@@ -325,6 +445,13 @@ def make_file(path, toks, feats, short=None, logs=None, tables=None, user=None):
                 hw.store_feature(f, rows_of(f, tk))
         for name, tab in (tables or {}).items():
             hw.store_table(name, tab)
+    if vclass:
+        import h5py
+        with h5py.File(path, "a") as h5:
+            for f in sorted(vclass):
+                if f in feats:
+                    h5.require_group("events").create_dataset(
+                        f, data=np.array([pl_class(f, t, vclass[f]) for t in toks], dtype="f8"))
     if logs:
         write_logs_raw(path, logs)
     if short:   # rectify_metadata took the count of the alphabetically first feature
@@ -350,14 +477,37 @@ def build_source(ctx, case, tag):
                 continue
             elif f in ("image", "image_bg") and base == "dictna":
                 dd[f] = NoArray(rows_of(f, toks))
+            elif f in (case.get("vclass") or {}):
+                dd[f] = np.array([pl_class(f, t, case["vclass"][f]) for t in toks], dtype="f8")
             else:
                 dd[f] = rows_of(f, toks)
         ds = dclab.new_dataset(dd)
         ds.config["setup"]["medium"] = "CellCarrierB"
         ds.config["setup"]["channel width"] = 20.0
         ds.config["user"]["note"] = "c02"
+        apply_meta(ds.config, case.get("meta"))
         for name, lines in (case.get("logs_content") or {}).items():
             ds.logs[name] = list(lines)
+    elif base == "basin":
+        # hdf5 file whose non-scalar features (and two scalars) come from a *mapped* file basin:
+        # event i of the dataset is event bmap[i] of the basin file
+        path = ctx.workdir / f"src_{tag}.rtdc"
+        pb = ctx.workdir / f"src_{tag}_basin.rtdc"
+        btoks, bmap = case["btoks"], case["bmap"]
+        bfeats = [f for f in avail if (f in NONSCALAR and f != "trace") or f in ("temp", "time")]
+        make_file(pb, btoks, ["deform"] + bfeats)
+        tables = None
+        if case.get("with_tables"):
+            tables = {"tab_one": {"a": [1.0, 2.0, 3.0], "b": [0.5, float(len(toks)), 7.0]}}
+        make_file(path, toks, [f for f in avail if f not in bfeats],
+                  logs=case.get("logs_content") or {"log_a": ["line 1", "line 2"]},
+                  tables=tables, user={"note": "c02", "number": 3}, meta=case.get("meta"))
+        if bfeats:
+            with dclab.RTDCWriter(path, mode="append") as hw:
+                hw.store_basin(basin_name="c02 mapped basin", basin_type="file",
+                               basin_format="hdf5", basin_locs=[str(pb)], basin_feats=bfeats,
+                               basin_map=np.array(bmap, dtype=np.uint64))
+        ds = dclab.new_dataset(path)
     elif base in ("hdf5", "short"):
         path = ctx.workdir / f"src_{tag}.rtdc"
         tables = None
@@ -366,7 +516,8 @@ def build_source(ctx, case, tag):
         make_file(path, toks, [f for f in avail if f != "c02_nd" or base == "hdf5"],
                   short=case.get("short") if base == "short" else None,
                   logs=case.get("logs_content") or {"log_a": ["line 1", "line 2"], "log-b": ["x"]},
-                  tables=tables, user={"note": "c02", "number": 3})
+                  tables=tables, user={"note": "c02", "number": 3}, meta=case.get("meta"),
+                  vclass=case.get("vclass"))
         ds = dclab.new_dataset(path)
     elif base == "defect":
         path = ctx.workdir / f"src_{tag}.rtdc"
@@ -511,7 +662,7 @@ def cfg_tokens(ds, sections):
             for k, v in dict(ds.config[sec]).items():
                 if (sec, k) in RECTIFIED:
                     continue
-                out.append(f"{name_ok(sec)}:{name_ok(k)}={tok(v)}")
+                out.append(f"{name_ok(sec)}:{name_ok(k)}={tok(norm_val(v))}")
     return sorted(out)
 
 
@@ -969,7 +1120,7 @@ def random_case(ctx, i, thorough_tdms=False):
     rng = ctx.rng
     kind = rng.choice(["dict", "dictna", "hdf5", "hdf5", "short", "child-dict", "child-hdf5",
                        "child-child-hdf5", "child-child-dict", "defect", "child-hdf5",
-                       "child-child-dict"])
+                       "child-child-dict", "basin", "basin", "child-basin"])
     cs = rng.choice([1, 2, 3, 4, 5, 7, None])
     ce = 10 if cs is None else cs
     n = rng.randint(5, 36 if cs is None or cs > 3 else 16)
@@ -981,6 +1132,10 @@ def random_case(ctx, i, thorough_tdms=False):
         avail = [f for f in avail if f not in ("contour", "c02_nd")]
     case = {"kind": kind, "toks": toks, "avail": avail, "cs": cs, "parent_masks": [],
             "logs_content": make_logs(rng)}
+    if kind.endswith("basin"):
+        make_basin_map(rng, case, n)
+    if rng.random() < 0.6 and kind != "defect":
+        case["meta"] = make_meta(rng)
     if kind.endswith("short"):
         if not any(f in avail for f in ("image", "mask", "trace")):
             avail.append("image")
@@ -1019,12 +1174,36 @@ def random_case(ctx, i, thorough_tdms=False):
                                                    "kcs-1", "kcs", "kcs+1"]), ce)
     if kind == "defect" and rng.random() < 0.5:
         case["mask"] = [1] * cur                 # all-True filter on hdf5: the unfiltered route
+    # (finding F76, repaired in /repo: BasinProxyFeature.shape used to be the BASIN's shape, so the
+    # unfiltered route wrote nb rows for a mapped basin of another length; the unfiltered route now
+    # sees basins of every length)
     if rng.random() < 0.12:
         case["priors"] = [make_prior(rng) for _ in range(rng.choice([1, 1, 2]))]
         case["override"] = int(rng.random() < 0.8)
     if rng.random() < 0.06:
         case["req_none"], case["req"] = 1, []
     return no_unfiltered_nonsliceable(case)
+
+
+def make_basin_map(rng, case, n, same_length=False):
+    """a basin file with nb >= n events and the mapping of the n dataset events to them: strictly
+    increasing, with repeated events, decreasing, or in arbitrary order without / with
+    repetitions (a mapped basin is defined by ANY integer array)"""
+    nb = n if same_length else n + rng.randint(0, 8)
+    btoks = rng.sample(range(max(500, 4 * nb)), nb)
+    how = rng.choice(["increasing", "repeats", "sorted-repeats", "decreasing", "arbitrary",
+                      "arbitrary", "arbitrary"])
+    if how in ("repeats", "sorted-repeats"):
+        bmap = [rng.randrange(nb) for _ in range(n)]
+    else:
+        bmap = rng.sample(range(nb), n)
+    if how in ("increasing", "sorted-repeats"):
+        bmap.sort()
+    if how == "decreasing":
+        bmap.sort(reverse=True)
+    case.update(btoks=btoks, bmap=bmap, bmap_kind=how, toks=[btoks[i] for i in bmap])
+    if not any(f in case["avail"] for f in ("image", "mask", "image_bg", "c02_nd")):
+        case["avail"].append(rng.choice(["image", "mask"]))
 
 
 def make_history(rng, final):
@@ -1082,7 +1261,10 @@ def fixed_cases():
     out = []
     toks = list(range(40, 52))
     avail = ["deform", "area_um", "temp", "image", "image_bg", "mask", "contour", "trace", "c02_nd"]
-    for kind in ("hdf5", "dict", "dictna", "child-hdf5", "child-child-dict", "short"):
+    import random
+    full_meta = make_meta(random.Random(2), full=True)    # every key of every metadata section
+    for kind in ("hdf5", "dict", "dictna", "child-hdf5", "child-child-dict", "short", "basin",
+                 "child-basin"):
         pms = [[1, 1, 0] * 4][:kind.count("child")]
         if kind.count("child") == 2:
             pms.append([1, 0, 1, 1, 1, 0, 1, 1])
@@ -1099,6 +1281,11 @@ def fixed_cases():
                                       "log-b": ["\U0001F600" * 30 + "abc"], "none": []}}
                 if kind == "short":
                     c["short"] = {"image": 2}
+                if kind.endswith("basin"):     # dataset event i = basin event bmap[i]
+                    bmap = [7, 2, 11, 4, 9, 0, 5, 10, 1, 8, 3, 6]
+                    c.update(btoks=toks, bmap=bmap, toks=[toks[i] for i in bmap])
+                if mk != "empty":
+                    c["meta"] = full_meta
                 if pms:       # the ancestors selected other events (same number) before
                     c["history"] = [[list(reversed(m)) for m in pms],
                                     [list(reversed(pms[0]))] + [list(m) for m in pms[1:]]]
@@ -1217,7 +1404,11 @@ def part_b(ctx):
                  case["filtered"], case["cs"], case["logs"], case["tables"],
                  tuple(map(tuple, case["parent_masks"])), case.get("defect"),
                  repr(case.get("history")), repr(case.get("priors")), case.get("override", 1),
-                 case.get("req_none", 0))
+                 case.get("req_none", 0), repr(case.get("meta")), repr(case.get("bmap")))
+        if case.get("meta"):
+            ctx.stat("B:generated-metadata")
+        if case.get("bmap_kind"):
+            ctx.stat("B:basin-map=" + case["bmap_kind"])
         if case.get("defect"):
             ctx.stat("B:defect=" + case["defect"])
         ctx.case(canon, nontrivial=res["nontrivial"],
@@ -1282,6 +1473,18 @@ def prepare_tdms(ctx, case):
 
 # ---------------------------------------------------------------------------------------
 # part C: tsv
+def scalar_universe():
+    """dclab's scalar features that a source can simply hold as data (not the ones dclab
+    enumerates or derives itself: index*, basinmap*, ml_*), minus the standard five"""
+    dclab = common.import_dclab()
+    try:
+        names = list(dclab.dfn.scalar_feature_names)
+    except Exception:
+        return []
+    return sorted(f for f in names if f not in SCALARS and f == name_ok(f)
+                  and not f.startswith(("index", "basinmap", "ml_", "userdef")))
+
+
 def parse_tsv(path, full=False):
     """column names (last but one comment line) and data rows; with `full` also the labels (last
     comment line) and whether every comment line precedes the first data line"""
@@ -1325,11 +1528,24 @@ def part_c(ctx):
     specs += [(rng.choice(["dict", "hdf5", "child-hdf5", "child-child-dict"]),
                rng.choice([rng.randint(3, 30), rng.randint(3, 30), rng.choice([4, 16, 64, 256])]),
                None) for _ in range(ctx.n(40, 400))]
+    reported_c = set()          # one report per failure class
     for ci, (kind, n, ksel) in enumerate(specs):
         big = n >= 1024
         toks = rng.sample(range(max(500, 8 * n)), n * (2 if big and kind.startswith("child") else 1))
-        avail = list(SCALARS) + ["image"]
-        case = {"kind": kind, "toks": toks, "avail": avail, "cs": None, "parent_masks": []}
+        # scalar features of the source: the five standard ones plus a few of ANY of dclab's scalar
+        # features; the values they hold are drawn per feature from the value classes (integer-
+        # valued, fractional, negative, nan/inf, wide range) independently of the feature's name
+        pool = list(SCALARS)
+        if not big:
+            extra = scalar_universe()
+            pool += rng.sample(extra, min(len(extra), rng.randint(0, 4)))
+        vclass = {}
+        for f in pool:
+            if f not in ("deform", "area_um") and rng.random() < (0.25 if big else 0.6):
+                vclass[f] = rng.choice(VCLASSES)
+        avail = list(pool) + ["image"]
+        case = {"kind": kind, "toks": toks, "avail": avail, "cs": None, "parent_masks": [],
+                "vclass": vclass}
         cur = len(toks)
         for _ in range(kind.count("child")):
             if big:
@@ -1341,7 +1557,7 @@ def part_c(ctx):
                 pm = [1] * cur
             case["parent_masks"].append(pm)
             cur = sum(pm)
-        req = rng.sample(SCALARS, rng.randint(1 if rng.random() < 0.95 else 0, len(SCALARS)))
+        req = rng.sample(pool, rng.randint(1 if rng.random() < 0.95 else 0, len(pool)))
         req = [f.upper() if rng.random() < 0.3 else f.capitalize() if rng.random() < 0.2 else f
                for f in req]
         if req and rng.random() < 0.4:
@@ -1365,14 +1581,14 @@ def part_c(ctx):
             m = np.array(ds.filter.all, dtype=bool)
             low = sorted(set(f.lower() for f in req))
             L = [f"src {len(ds)} 0"]
-            for f in SCALARS:
+            for f in pool:
                 L.append(f"feat {f} scalar 1 " + (",".join(map(str, range(len(ds)))) or "-"))
             L.append(f"feat image image 1 " + (",".join(map(str, range(len(ds)))) or "-"))
             targs = "%d %s %s" % (filtered, "".join("1" if b else "0" for b in m) or "-",
                                   ",".join(req) or "-")
             L.append("tsv " + targs)
             try:        # labels as dclab defines them (placement and order are what is compared)
-                labs = {f: tok(dclab.dfn.get_feature_label(f, rtdc_ds=ds)) for f in SCALARS}
+                labs = {f: tok(dclab.dfn.get_feature_label(f, rtdc_ds=ds)) for f in pool}
             except Exception:
                 labs = None
             out = ctx.workdir / "out_c.tsv"
@@ -1410,12 +1626,15 @@ def part_c(ctx):
                                                      ";".join(tokrows))
             except Exception as e:  # noqa
                 ans = ans2 = "err"
-                if all(f.lower() in SCALARS for f in req):
+                if all(f.lower() in pool for f in req):
                     bad.append(f"tsv export raised {e!r}"[:200])
             ctx.case(("C", kind, tuple(toks), tuple(req), tuple(mask), filtered),
                      nontrivial=0 < int(m.sum()) < len(m) and bool(req))
             ctx.stat("C:tsv")
-            if bad:
+            for f in low:
+                ctx.stat("C:values=" + vclass.get(f, "payload"))
+            if bad and fail_key(bad[0]) not in reported_c and len(reported_c) < 4:
+                reported_c.add(fail_key(bad[0]))
                 ctx.violation("spec", f"tsv export ({kind}, features={req}, filtered={filtered}): "
                                       + bad[0],
                               {"part": "C", "case": dict(case, req=req, mask=mask,
